@@ -189,7 +189,12 @@ CHECKS["C04"] = {
             "header (C04_gadget_members_placed); whatever the object kind, property and outcome, a binding placed in neither output is diagnosed "
             "(C04_never_in_neither). Tie: per object, the properties in the real .ui, the bindings/members/callbacks of the real header and the diagnostics attributed "
             "by byte range vs the model, on generated documents with labelled bindings. Oracle without the model: exactly-one on accepted documents; planted "
-            "unknown/duplicated/unsupported bindings are diagnosed inside their text; the real command exits 1 and creates/modifies no output on error.",
+            "unknown/duplicated/unsupported bindings are diagnosed inside their text; the real command exits 1 and creates/modifies no output on error. "
+            "The loop of the command over its source arguments is model/Driver.v, with theorems for EVERY list of sources: the exit status is 0 exactly when no source has "
+            "errors, an error in any position fails the command, nothing of the faulty source or of a later one is written, accepted sources are all written "
+            "(C04_exit_status_zero_iff_no_source_has_errors, C04_an_error_in_any_source_fails_the_command, C04_nothing_is_written_from_the_faulty_source_on, "
+            "C04_accepted_sources_are_all_written); compared with the real command on invocations naming a faulty source first / in the middle / last among accepted ones; "
+            "Diagnostics::has_error() is checked against the listed diagnostics on every harness result.",
     "technique": "Coq proof over a model of the binding routing (name lists regenerated from source) + per-binding differential check against real .ui/header/diagnostics + exactly-one oracle + CLI run",
     "design_ref": "5 C04",
     "note": "Trusted: the generator's labels of bindings (a wrong label is a K disagreement), diagnostic attribution by byte range, message classes. The expression layer "
